@@ -66,6 +66,8 @@ def gen_dataset_params(rng, fmt: str | None = None, small: bool = False, big: bo
         na, nf = rng.randint(1, 3), rng.randint(2, 5)
     else:
         na, nf = rng.randint(1, 8), rng.randint(2, 12)
+        if rng.chance(0.08):  # swarm: an occasional medium-size dataset (several pickle frames / write() calls)
+            na, nf = rng.randint(9, 40), rng.randint(13, 400)
     if fmt == 'vasp':
         nf = max(nf, 4)
     n_kinds = rng.randint(1, min(3, na))
